@@ -1,20 +1,32 @@
-// xlate_gconf — translator tie (T) for C03: reads gconfig/builder.go and gconfig/config.go of
-// the current tree with go/parser and regenerates Gallina definitions for keySet,
-// (*dimension).parsesAll, switchDimension, reduceAny and extract over the primitives of
-// GT.GConfGenPrims.  A recursive function is rendered as a functional of its own recursive
-// call (first parameter `rec`), so the tie is the recursion equation read off the source.
+// xlate_gconf — translator ties (T) for C03, C16 and C10: reads gconfig/builder.go, config.go and
+// yaml_templates.go of the current tree with go/parser and regenerates Gallina definitions
 //
-// Supported subset: `x := e`, `x = e`, `a, b := f(..)`, `a, b := m[k]`, `a, b = x.(map[string]any)`,
-// `var x T`, `m[k] = e` / `s[i] = e` (also through the variable bound by a type switch, which
-// aliases the switched value), method statement `set.Add(k)`, `if [init;] c {..} [else {..}]`,
-// `for k[, v] := range map|slice|set` with `continue` and early `return`,
-// `switch v := x.(type)` over map[string]any / []any, `return ...`, `len`, `make(set.Set[string], n)`,
-// `==`, `!=`, `<`, `-`, `!`, `&&`, `||`, `nil`, integer literals, true/false, the constant
-// defaultKey, calls of the translated functions, dimension methods get / defaultVal.ParseGeneric,
-// error factories (ErrFailedParsing.Msg(..) = some non-nil error).  Anything else is rendered
-// as UNSUPPORTED_<what>, which makes the generated file fail to compile and breaks the tie.
+//	-set resolve    keySet, parsesAll, switchDimension, reduceAny, extract   (GT.GConfGenPrims)
+//	-set templates  MatchAndResolve, parseTemplatedElements                   (GT.TmplGenPrims)
+//	-set cache      getFromCache                                              (GT.GConfCacheGenPrims)
 //
-//	xlate_gconf -src <repo>/gconfig -out GConfGen.v
+// A recursive function is rendered as a functional of its own recursive call (first parameter
+// `rec`), so its tie is the recursion equation read off the source.  Functions are located by
+// their place in the call graph below FromBytes / Get (rename.go: resolveRoles), locals are
+// renamed to x1, x2, ... by declaration with Go's block scoping (rename.go: renameLocals), the
+// `default` key constant, the compiled-pattern variable and the template list are found by their
+// initialisers: renaming any of these leaves the output unchanged.
+//
+// Supported subset: `x := e`, `x = e`, `a, b[, c] := f(..)`, `a, b := m[k]`, `a, b = x.(map[string]any)`,
+// `m[k], err = f(..)`, `var x T`, `m[k] = e` / `s[i] = e` (also through the variable bound by a type
+// switch, which aliases the switched value), method statement `set.Add(k)`,
+// `if [init;] c {..} [else {..} | else if ..]`, `for k[, v] := range map|slice|set|templates` with
+// `continue` and early `return`, `switch v := x.(type)` / `any(x).(type)` over string /
+// map[string]any / []any, `return ...` (incl. `return f(..)` and `return v.(T), e`), named results,
+// `len`, `make(set.Set[string], n)`, `==`, `!=`, `<`, `-`, `!`, `&&`, `||`, `nil`, integer and string
+// literals, true/false, slice indexing `s[i]`, calls of the translated functions, dimension methods
+// get / defaultVal.ParseGeneric, error factories (Err*.Msg(..), gerror.*: some non-nil error),
+// FindStringSubmatch / os.LookupEnv / strings.Trim, `cacheKey{key: .., typ: reflect.TypeFor[T]()}`,
+// `cfg.cached.Compute(k, func..)` with a function literal assigning a captured variable,
+// `extractAndConvert[T](cfg.data, key)`, `any(e)` and `any(e).(T)`.  Anything else is rendered as
+// UNSUPPORTED_<what>, which makes the generated file fail to compile and breaks the tie.
+//
+//	xlate_gconf -src <repo>/gconfig [-set resolve|templates|cache] -out <file>.v
 package main
 
 import (
@@ -50,6 +62,18 @@ const (
 	kDval     // a Go `any` held by the memo: dynamic type + payload (cache set)
 	kCfg      // *Config
 	kCacheKey // cacheKey
+	kTemplate // an element of the package's template list (templates set)
+	kTemplates
+)
+
+// what a value of the type parameter is rendered as (kT = abstract `val`; the templates set
+// instantiates it with decoded yaml values, i.e. trees)
+var typeParamKind = kT
+
+// the package variable holding the templates ([]templateVariable{&envVarTmpl{}}) and its length
+var (
+	templatesVar = ""
+	templatesLen = 0
 )
 
 // in the cache set `any` is a memo value (kDval), elsewhere a decoded yaml value (kAny)
@@ -114,7 +138,7 @@ func typeKind(t ast.Expr) kind {
 	switch x := t.(type) {
 	case *ast.Ident:
 		if typeParam != "" && x.Name == typeParam {
-			return kT
+			return typeParamKind
 		}
 		switch x.Name {
 		case "any":
@@ -165,10 +189,18 @@ func typeKind(t ast.Expr) kind {
 }
 
 type sig struct {
+	role    string
 	params  []kind
 	results []kind
 	rec     bool
 }
+
+// names found in the source rather than assumed (so that renaming them does not break the tie)
+var (
+	roleGo         = map[string]string{} // role -> declaration key ("name" or "Recv.name")
+	defaultKeyName = "defaultKey"        // the string constant whose value is "default"
+	matcherVar     = "envVarTmplMatcher" // the variable initialised by regexp.MustCompile
+)
 
 var sigs = map[string]*sig{}
 
@@ -263,15 +295,19 @@ func (f *fn) call(c *ast.CallExpr) (string, []kind) {
 			if id.Name == f.name && s.rec {
 				return "(rec " + strings.Join(a, " ") + ")", s.results
 			}
-			return "(gen_" + id.Name + " " + strings.Join(a, " ") + ")", s.results
+			return "(gen_" + s.role + " " + strings.Join(a, " ") + ")", s.results
 		}
 		return f.bad("call of " + id.Name), []kind{kUnknown}
 	}
 	if ix, ok := c.Fun.(*ast.IndexExpr); ok { // explicit instantiation f[T](...)
 		if typeParam != "" && ident(ix.Index) == typeParam {
-			switch strings.Join(chain(ix.X), ".") {
+			target := strings.Join(chain(ix.X), ".")
+			if target == roleGo["extractAndConvert"] {
+				target = "extractAndConvert"
+			}
+			switch target {
 			case "extractAndConvert": // extractAndConvert[T](cfg.data, key), boxed into `any` by the assignment
-				if len(c.Args) == 2 && strings.Join(chain(c.Args[0]), ".") == "cfg.data" {
+				if a0 := chain(c.Args[0]); len(c.Args) == 2 && len(a0) == 2 && f.env[a0[0]] == kCfg && a0[1] == "data" {
 					a, _ := f.expr(c.Args[1], kString)
 					return "(extract_and_convert is_iface dyn_of_any conv tyT " + a + ")", []kind{kDval, kErr}
 				}
@@ -290,7 +326,11 @@ func (f *fn) call(c *ast.CallExpr) (string, []kind) {
 	if isErrFactory(ch[0]) || ch[0] == "gerror" { // ErrFailedParsing.Msg(...): some non-nil error
 		return "true", []kind{kErr}
 	}
-	switch strings.Join(ch, ".") {
+	joined := strings.Join(ch, ".")
+	if len(ch) == 2 && ch[0] == matcherVar {
+		joined = "envVarTmplMatcher." + ch[1]
+	}
+	switch joined {
 	case "envVarTmplMatcher.FindStringSubmatch":
 		if len(c.Args) == 1 {
 			a, _ := f.expr(c.Args[0], kString)
@@ -310,6 +350,12 @@ func (f *fn) call(c *ast.CallExpr) (string, []kind) {
 		}
 	}
 	recv, rk := ch[0], f.env[ch[0]]
+	if rk == kTemplate && len(ch) == 2 {
+		if sg, ok := sigs[roleGo[ch[1]]]; ok && ch[1] == "MatchAndResolve" {
+			f.usesEnv = true
+			return "(gen_" + sg.role + " env " + strings.Join(args(), " ") + ")", sg.results
+		}
+	}
 	switch {
 	case rk == kDimPtr && len(ch) == 2 && ch[1] == "get" && len(c.Args) == 0:
 		return "(dim_get v_" + recv + ")", []kind{kEnum}
@@ -317,8 +363,8 @@ func (f *fn) call(c *ast.CallExpr) (string, []kind) {
 		a, _ := f.expr(c.Args[0], kString)
 		return "(parse_generic v_" + recv + " " + a + ")", []kind{kEnum, kErr}
 	case rk == kDimPtr && len(ch) == 2:
-		if s, ok := sigs[ch[1]]; ok {
-			return "(gen_" + ch[1] + " v_" + recv + " " + strings.Join(args(), " ") + ")", s.results
+		if s, ok := sigs["dimension."+ch[1]]; ok {
+			return "(gen_" + s.role + " v_" + recv + " " + strings.Join(args(), " ") + ")", s.results
 		}
 	}
 	return f.bad("method call " + strings.Join(ch, ".")), []kind{kUnknown}
@@ -335,8 +381,12 @@ func (f *fn) expr(e ast.Expr, want kind) (string, kind) {
 			return x.Name, kBool
 		case "nil":
 			return want.zero(), want
-		case "defaultKey":
+		}
+		if x.Name == defaultKeyName {
 			return "default_key", kString
+		}
+		if templatesVar != "" && x.Name == templatesVar && f.env[x.Name] == kUnknown {
+			return "(repeat tt " + strconv.Itoa(templatesLen) + ")", kTemplates
 		}
 		k := f.env[x.Name]
 		if k == kUnknown {
@@ -349,6 +399,9 @@ func (f *fn) expr(e ast.Expr, want kind) (string, kind) {
 		}
 		if want == kAny && k == kSlice {
 			return "(Lst " + v + ")", kAny
+		}
+		if want == kAny && k == kString {
+			return "(Str " + v + ")", kAny
 		}
 		return v, k
 	case *ast.BasicLit:
@@ -444,11 +497,22 @@ func (f *fn) expr(e ast.Expr, want kind) (string, kind) {
 		}
 		return f.bad("binary " + x.Op.String()), kUnknown
 	case *ast.CallExpr:
+		if id := ident(x.Fun); id == "any" && len(x.Args) == 1 { // conversion to an interface value
+			return f.expr(x.Args[0], kAny)
+		}
 		t, ks := f.call(x)
 		if len(ks) == 1 {
 			return t, ks[0]
 		}
 		return t, kUnknown
+	case *ast.TypeAssertExpr:
+		// any(e).(T) with T the type parameter, instantiated with `any` wherever this is reached
+		if typeParam != "" && ident(x.Type) == typeParam && typeParamKind == kAny {
+			if c, ok := x.X.(*ast.CallExpr); ok && ident(c.Fun) == "any" && len(c.Args) == 1 {
+				return f.expr(c.Args[0], kAny)
+			}
+		}
+		return f.bad("type assertion"), kUnknown
 	}
 	return f.bad(fmt.Sprintf("expr %T", e)), kUnknown
 }
@@ -514,7 +578,19 @@ func (f *fn) assigned(list []ast.Stmt) []string {
 	for k := range set {
 		out = append(out, k)
 	}
-	sort.Strings(out)
+	// loop-carried variables are ordered by kind, then by declaration (canonical names are
+	// x<N>), so that reordering independent declarations does not reorder the state tuple
+	sort.Slice(out, func(i, j int) bool {
+		if ki, kj := f.env[out[i]], f.env[out[j]]; ki != kj {
+			return ki < kj
+		}
+		a, ea := strconv.Atoi(strings.TrimPrefix(out[i], "x"))
+		b, eb := strconv.Atoi(strings.TrimPrefix(out[j], "x"))
+		if ea == nil && eb == nil {
+			return a < b
+		}
+		return out[i] < out[j]
+	})
 	return out
 }
 
@@ -595,12 +671,61 @@ func (f *fn) stmts(list []ast.Stmt, k, loopK, ind string) string {
 		if s.Tok != token.DEFINE && s.Tok != token.ASSIGN {
 			return f.bad("assignment operator")
 		}
+		if len(s.Lhs) > 2 && len(s.Rhs) == 1 { // a, b, c := f(...)
+			c, ok := s.Rhs[0].(*ast.CallExpr)
+			if !ok {
+				return f.bad("multi-value assignment")
+			}
+			term, ks := f.call(c)
+			if len(ks) != len(s.Lhs) {
+				return f.bad("multi-value assignment arity")
+			}
+			names := make([]string, len(s.Lhs))
+			for i, l := range s.Lhs {
+				if n := ident(l); n != "_" && n != "" {
+					f.env[n] = ks[i]
+				}
+				names[i] = lhsName(l)
+			}
+			return let("'("+strings.Join(names, ", ")+")", term)
+		}
 		if len(s.Lhs) == 2 && len(s.Rhs) == 1 {
+			if ix, isIx := s.Lhs[0].(*ast.IndexExpr); isIx { // m[k], err = f(...)
+				c, ok := s.Rhs[0].(*ast.CallExpr)
+				if !ok {
+					return f.bad("index target in a two-value assignment")
+				}
+				term, ks := f.call(c)
+				if len(ks) != 2 {
+					return f.bad("two-value assignment arity")
+				}
+				if n := ident(s.Lhs[1]); n != "_" && n != "" {
+					f.env[n] = ks[1]
+				}
+				name := ident(ix.X)
+				var upd string
+				switch f.env[name] {
+				case kMap:
+					i, _ := f.expr(ix.Index, kString)
+					upd = "map_set v_" + name + " " + i + " t_new"
+				case kSlice:
+					i, _ := f.expr(ix.Index, kInt)
+					upd = "slice_set v_" + name + " " + i + " t_new"
+				default:
+					return f.bad("index assignment")
+				}
+				out := "let '(t_new, " + lhsName(s.Lhs[1]) + ") := " + term + " in\n" + ind +
+					"let v_" + name + " := " + upd + " in\n" + ind
+				if a, ok := f.aliases[name]; ok {
+					out += "let v_" + a.of + " := " + a.inj + " v_" + name + " in\n" + ind
+				}
+				return out + rest()
+			}
 			var term string
 			var ks []kind
 			switch r := s.Rhs[0].(type) {
 			case *ast.CallExpr:
-				if strings.Join(chain(r.Fun), ".") == "cfg.cached.Compute" && f.stateful && len(r.Args) == 2 {
+				if ch := chain(r.Fun); len(ch) == 3 && f.env[ch[0]] == kCfg && ch[1] == "cached" && ch[2] == "Compute" && f.stateful && len(r.Args) == 2 {
 					// v, ok := cfg.cached.Compute(k, func(old any, loaded bool) (new any, del bool) {...})
 					key, _ := f.expr(r.Args[0], kCacheKey)
 					lit, isLit := r.Args[1].(*ast.FuncLit)
@@ -736,11 +861,14 @@ func (f *fn) stmts(list []ast.Stmt, k, loopK, ind string) string {
 		then := f.stmts(s.Body.List, after, loopK, ind+"  ")
 		els := after
 		if s.Else != nil {
-			blk, ok := s.Else.(*ast.BlockStmt)
-			if !ok {
-				return f.bad("else if")
+			switch e := s.Else.(type) {
+			case *ast.BlockStmt:
+				els = f.stmts(e.List, after, loopK, ind+"  ")
+			case *ast.IfStmt:
+				els = f.stmts([]ast.Stmt{e}, after, loopK, ind+"  ")
+			default:
+				return f.bad("else form")
 			}
-			els = f.stmts(blk.List, after, loopK, ind+"  ")
 		}
 		return pre + "if " + cond + "\n" + ind + "then " + then + "\n" + ind + "else " + els
 	case *ast.RangeStmt:
@@ -774,6 +902,12 @@ func (f *fn) stmts(list []ast.Stmt, k, loopK, ind string) string {
 		case kDims:
 			items = "(indexed " + src + ")"
 			item = "'(" + bind(key, kInt) + ", " + bind(val, kDimPtr) + ")"
+		case kTemplates:
+			items = src
+			item = bind(val, kTemplate)
+			if key != "_" && key != "" {
+				return f.bad("index variable over the templates")
+			}
 		case kKeys:
 			if val != "" {
 				return f.bad("range over a set with a value variable")
@@ -807,7 +941,11 @@ func (f *fn) stmts(list []ast.Stmt, k, loopK, ind string) string {
 		if !ok || ta.Type != nil {
 			return f.bad("type switch form")
 		}
-		bound, of := ident(as.Lhs[0]), ident(ta.X)
+		swX := ta.X
+		if c, ok := swX.(*ast.CallExpr); ok && ident(c.Fun) == "any" && len(c.Args) == 1 {
+			swX = c.Args[0] // switch v := any(x).(type)
+		}
+		bound, of := ident(as.Lhs[0]), ident(swX)
 		if f.env[of] != kAny {
 			return f.bad("type switch on a non-any")
 		}
@@ -819,7 +957,7 @@ func (f *fn) stmts(list []ast.Stmt, k, loopK, ind string) string {
 				return f.bad("type switch clause with several types")
 			}
 			kd := typeKind(cc.List[0])
-			inj := map[kind]string{kMap: "Mp", kSlice: "Lst"}[kd]
+			inj := map[kind]string{kMap: "Mp", kSlice: "Lst", kString: "Str"}[kd]
 			if inj == "" {
 				return f.bad("type switch clause type")
 			}
@@ -888,24 +1026,24 @@ func (f *fn) funcLit(lit *ast.FuncLit, ind string) (string, []string) {
 }
 
 type target struct {
-	file string
-	name string
+	role string
 	rec  bool
 }
 
 var sets = map[string][]target{
 	"resolve": {
-		{"builder.go", "keySet", false},
-		{"builder.go", "parsesAll", false},
-		{"builder.go", "switchDimension", false},
-		{"builder.go", "reduceAny", true},
-		{"config.go", "extract", false},
+		{"keySet", false},
+		{"parsesAll", false},
+		{"switchDimension", false},
+		{"reduceAny", true},
+		{"extract", false},
 	},
 	"templates": {
-		{"yaml_templates.go", "MatchAndResolve", false},
+		{"MatchAndResolve", false},
+		{"parseTemplatedElements", true},
 	},
 	"cache": {
-		{"config.go", "getFromCache", false},
+		{"getFromCache", false},
 	},
 }
 
@@ -920,31 +1058,38 @@ func main() {
 	if *set == "cache" {
 		anyKind = kDval
 	}
+	if *set == "templates" {
+		typeParamKind = kAny
+	}
 	if wanted == nil {
 		fmt.Fprintln(os.Stderr, "unknown -set")
 		os.Exit(2)
 	}
 	fset := token.NewFileSet()
 	decls := map[string]*ast.FuncDecl{}
+	var files []*ast.File
 	for _, name := range []string{"builder.go", "config.go", "yaml_templates.go"} {
 		file, err := parser.ParseFile(fset, filepath.Join(*src, name), nil, 0)
 		if err != nil {
 			fmt.Fprintln(os.Stderr, err)
 			os.Exit(2)
 		}
+		files = append(files, file)
 		for _, d := range file.Decls {
 			if fd, ok := d.(*ast.FuncDecl); ok && fd.Body != nil {
-				decls[name+":"+fd.Name.Name] = fd
+				decls[declKey(fd)] = fd
 			}
 		}
 	}
+	resolveRoles(decls)
+	resolveNames(files)
 	// signatures first (calls between the translated functions)
 	for _, t := range wanted {
-		fd, ok := decls[t.file+":"+t.name]
+		fd, ok := decls[roleGo[t.role]]
 		if !ok {
 			continue
 		}
-		s := &sig{rec: t.rec}
+		s := &sig{rec: t.rec, role: t.role}
 		typeParam = ""
 		if fd.Type.TypeParams != nil && len(fd.Type.TypeParams.List) == 1 && len(fd.Type.TypeParams.List[0].Names) == 1 {
 			typeParam = fd.Type.TypeParams.List[0].Names[0].Name
@@ -965,7 +1110,7 @@ func main() {
 				}
 			}
 		}
-		sigs[t.name] = s
+		sigs[roleGo[t.role]] = s
 	}
 	var b strings.Builder
 	b.WriteString("(* GENERATED by harness/cmd/xlate_gconf (-set " + *set + ") from the gconfig sources of the current tree — do not edit *)\n")
@@ -983,26 +1128,28 @@ func main() {
 	b.WriteString("\n")
 	var problems []string
 	for _, t := range wanted {
-		fd, ok := decls[t.file+":"+t.name]
+		fd, ok := decls[roleGo[t.role]]
 		if !ok {
-			b.WriteString("Definition gen_" + t.name + " := UNSUPPORTED_function_" + t.name + "_not_found.\n\n")
-			problems = append(problems, t.name+": not found")
+			b.WriteString("Definition gen_" + t.role + " := UNSUPPORTED_function_" + t.role + "_not_found.\n\n")
+			problems = append(problems, t.role+": not found")
 			continue
 		}
+		renameLocals(fd)
+		goName := roleGo[t.role]
 		typeParam = ""
 		if fd.Type.TypeParams != nil && len(fd.Type.TypeParams.List) == 1 && len(fd.Type.TypeParams.List[0].Names) == 1 {
 			typeParam = fd.Type.TypeParams.List[0].Names[0].Name
 		}
-		f := &fn{name: t.name, env: map[string]kind{}, aliases: map[string]alias{}, results: sigs[t.name].results}
+		f := &fn{name: goName, env: map[string]kind{}, aliases: map[string]alias{}, results: sigs[goName].results}
 		f.stateful = *set == "cache"
-		head := "Definition gen_" + t.name
+		head := "Definition gen_" + t.role
 		resT := make([]string, len(f.results))
 		for i, r := range f.results {
 			resT[i] = r.coq()
 		}
 		if t.rec {
 			var pt []string
-			for _, p := range sigs[t.name].params {
+			for _, p := range sigs[goName].params {
 				pt = append(pt, p.coq())
 			}
 			head += " (rec : " + strings.Join(pt, " -> ") + " -> " + strings.Join(resT, " * ") + ")"
@@ -1044,7 +1191,7 @@ func main() {
 		}
 		body := pre + f.stmts(fd.Body.List, "MISSING_RETURN", "", "  ")
 		if f.usesEnv {
-			head = strings.Replace(head, "Definition gen_"+t.name, "Definition gen_"+t.name+" (env : list (string * string))", 1)
+			head = strings.Replace(head, "Definition gen_"+t.role, "Definition gen_"+t.role+" (env : list (string * string))", 1)
 		}
 		if f.stateful {
 			head += " : option (gcache ty * (" + strings.Join(resT, " * ") + "))"
@@ -1056,7 +1203,7 @@ func main() {
 		}
 		b.WriteString(head + " :=\n  " + body + ".\n\n")
 		for _, p := range f.problems {
-			problems = append(problems, t.name+": "+p)
+			problems = append(problems, t.role+": "+p)
 		}
 	}
 	if *set == "cache" {
@@ -1064,7 +1211,7 @@ func main() {
 	}
 	names := make([]string, len(wanted))
 	for i, t := range wanted {
-		names[i] = t.name
+		names[i] = t.role + " (" + roleGo[t.role] + ")"
 	}
 	b.WriteString("(* translated: " + strings.Join(names, ", ") + " (a recursive function as a functional of its recursive call) *)\n")
 	if err := os.WriteFile(*out, []byte(b.String()), 0o644); err != nil {
